@@ -222,9 +222,21 @@ func TestC11(t *testing.T) {
 			case 8:
 				want := rapid.SampledFrom([]hx.Kind{hx.KInt, hx.KFloat, hx.KBool, hx.KString}).Draw(t, "want")
 				e := hx.GenExprOfKind(t, tab, want, 2, customCtx)
-				makers[i] = opMaker{desc: fmt.Sprintf("%s.Eval(n1, %s, shared ctx custom=%v)", mn, e.String(), customCtx), scratch: true, mk: func(f family) func() string {
+				// the context: the one shared by the family, or a private one that the goroutine builds for itself
+				// (NewDefaultCtx + SetFunc) while the others are already evaluating
+				private := rapid.Bool().Draw(t, "privatectx")
+				makers[i] = opMaker{desc: fmt.Sprintf("%s.Eval(n1, %s, ctx custom=%v private=%v)", mn, e.String(), customCtx, private), scratch: true, mk: func(f family) func() string {
 					real := e.Build()
-					return func() string { return snapFrame(f.members[mi].Eval("n1", real, eval.EvalContext(f.ctx))) }
+					return func() string {
+						ctx := f.ctx
+						if private {
+							ctx = eval.NewDefaultCtx()
+							if customCtx {
+								ctx = hx.NewCtx()
+							}
+						}
+						return snapFrame(f.members[mi].Eval("n1", real, eval.EvalContext(ctx)))
+					}
 				}}
 			case 9:
 				x := rapid.IntRange(0, tab.N()).Draw(t, "a")
